@@ -18,6 +18,9 @@ CHECKS = {
  "C06": dict(engine="E2", technique="exhaustive boundary enumeration of limits x sizes x read sizes + explicit-state token BFS under tiny limits on the real parser, against the reference verdict and a consumption bound",
    text="Every case of the boundary sweeps (head length vs header limit at -1/0/+1, declared and chunked body sizes around the body limit, unterminated lines past tiny limits, numbers of up to 10^5 digits, odd targets) x read sizes {1,7,8192}, and every token sequence up to the stated depth under limits (header 24, body 8), runs on the real server: refused messages never reach the application, exactly one well-formed 400/413/431/501 is sent and the socket closed, no exception escapes an event handler, nothing hangs, and consumption stops within one read of crossing the limit.",
    note="lookahead 0; one fixed schedule; a 20 s watchdog defines 'hang'", ref="DESIGN.md §4 C06"),
+ "C07": dict(engine="E5", technique="exhaustive enumeration of targets x header sets x bodies x method/version x configurations on the real parser->task path against an independent PEP 3333 reference image",
+   text="Every combination of the target, header-set, body, method/version and configuration menus is parsed and dispatched by the real server; the environ seen by the application must equal, key by key, the image computed by an independent reference (RFC 3986 splitting, percent-decoding, url_prefix split, CGI naming with underscore names dropped and repeats joined), every value a latin-1 native string, and wsgi.input must yield exactly the framed body whose length equals CONTENT_LENGTH (incl. the chunked and the spill-to-tempfile paths).",
+   note="collapse of extra leading slashes is part of the reference (documented behaviour); REQUEST_URI is the raw target", ref="DESIGN.md §4 C07"),
  "C08": dict(engine="E5", technique="exhaustive enumeration of all strings up to length n over a hostile alphabet x place x path on the real server, response head checked line by line",
    text="Every string up to the stated length over {a : SP CR LF NUL VT \\x85 e-acute euro NBSP} in the status, a header name and a header value (plus non-str objects and every letter-case variant of the hop-by-hop names) on six paths (first start_response, exc_info re-call, list mutated after the call, write(), file_wrapper, failure after start_response) is executed; the head must be the status line + exactly the application's fields + server fields with CR/LF only as terminators, or a 500 made of server strings only; CR/LF, non-strings and hop-by-hop names must take the 500 branch.",
    note="HTTP/1.1 GET on a fresh connection; default ident", ref="DESIGN.md §4 C08"),
@@ -27,9 +30,18 @@ CHECKS = {
  "C10": dict(engine="E4", technique="language comparison on automata: DFA derived from the compiled patterns + call-site wrapper, exhaustive BFS of the product with the RFC grammar DFA; model bound to the code by exhaustive conformance runs against the real call sites",
    text="For each lexical gate the accepted language (as a DFA derived from the pattern source and the call-site wrapper, conformance-checked against the real parse_header / ChunkedReceiver / crack_first_line on all strings up to length n over byte-class representatives and on every byte at every seed position) is compared with the RFC grammar DFA by exhaustive search of the product automaton: equality is decided for strings of every length; numeric conversion is exercised at 1..25, 4299..4301, 5000, 10^4, 10^5 digits.",
    note="regularity; byte-class abstraction (bytes not separated by any set of model or grammar are interchangeable); wrapper models are hand-written but conformance-checked", ref="DESIGN.md §4 C10, §2 E4"),
+ "C15": dict(engine="E5", technique="exhaustive enumeration of configurations x header-value assignments, relational two-run comparison on the real middleware path",
+   text="For every configuration with an untrusted peer (no trusted proxy, another address, prefix/extension/padded variants of the peer address; every trusted_proxy_headers shape; count 1..3; clearing on/off) and every assignment of well-formed, malformed and hostile values to subsets of the six proxy headers, the environ equals that of the same request without those headers, and with clearing on the headers never reach the application.",
+   note="peer 10.1.2.3; trusted_proxy='*' excluded by the property", ref="DESIGN.md §4 C15"),
+ "C16": dict(engine="E5", technique="exhaustive enumeration of hop lists x counts x trusted-header subsets against a reference hop-selection model on the real middleware path",
+   text="For a trusted peer every hop list of the stated shapes (length 1..5, all-plain or one odd element from the menus at each position, Forwarded with an attribute missing in the selected hop) x trusted_proxy_count 1..4 x every allowed subset of trusted_proxy_headers x untrusted kinds present is executed: address/host/scheme come from the count-th hop from the right (leftmost if fewer, missing attributes from the nearest more-trusted hop), hops further left never appear in the environ, untrusted kinds are stripped and without influence, the listed malformed classes give 400, and no value gives an exception or a 500.",
+   note="clearing on (default); for degenerate elements outside the listed classes only totality is demanded", ref="DESIGN.md §4 C16"),
  "C17": dict(engine="E2", technique="explicit-state BFS over operation histories of the real buffers with exact concrete-state merging, against a reference byte queue",
    text="All histories of append/peek/consume/skip/len/file-view operations up to the stated depth, over sizes around the 8 KiB string limit and each overflow threshold, are executed on the real OverflowableBuffer (real BytesIO/TemporaryFile) and compared step by step with a reference bytearray queue and a final drain; ReadOnlyFileBasedBuffer likewise over prepare sizes, file sizes and start offsets.",
    note="prune() outside the quantifier; random histories beyond the bound are supplementary and non-deciding", ref="DESIGN.md §4 C17"),
+ "C20": dict(engine="E5", technique="exhaustive enumeration of option subsets / values / CLI spellings / socket lists against a reference exclusion table and reference casts",
+   text="All subsets of the mutually exclusive address options x proxy-trust option combinations are accepted or refused exactly as the reference exclusion table says; every adjustment x values of its type is applied as the documented cast; --x / --no-x / --x=v / repeated --listen give the same settings as the keyword form, attribute by attribute; socket lists up to length 3 over four kinds are validated; the option names of docs/arguments.rst, docs/runner.rst and the runner help text equal the implemented table.",
+   note="numeric hosts only (hermetic getaddrinfo); docs compared by option name", ref="DESIGN.md §4 C20"),
  "C14": dict(engine="E1", technique="stateless exhaustive schedule enumeration (pre-emption/deviation bounded) of the real dispatcher under a controlled scheduler",
    text="Every interleaving of submitters, workers, resize and shutdown of the real ThreadedTaskDispatcher within the stated deviation bound (pre-emption at every dispatcher source line and lock/condition operation) is executed and checked for exactly-once, FIFO hand-out, worker-count convergence and shutdown effects.",
    note="CPython line-atomicity; virtual threading primitives replace threading.Lock/Condition/Thread; bounds per scenario in evidence.parts", ref="DESIGN.md §4 C14, §2 E1"),
